@@ -6,28 +6,39 @@ WALKS_Q = ["--walks", "150", "--walk-len", "300", "--walk-avoid", "readfile/dir"
 WALKS_T = ["--walks", "1500", "--walk-len", "400", "--walk-avoid", "readfile/dir"]
 
 
+def _fa(ctx):
+    """attribution of the FSCore stages for the property being checked (default: state C01, err C05, wf C03, list C16)"""
+    a = getattr(ctx, "fscore_attr", None)
+    return ["--attr", a] if a else []
+
+
 def fscore_small(ctx):
     # call paths of depth 3 (operations two levels below a regular file, deep renames) and Chtimes / two permission values
-    graph_stage(ctx, "fscore-deep", "MC_FSCore.tla", "FSCore.deep.cfg", "fscore", FS_ADAPTERS, ["--names", "a,b", "--depth", "4"], workers=4)
-    graph_stage(ctx, "fscore-times", "MC_FSCore.tla", "FSCore.times.cfg", "fscore", FS_ADAPTERS, ["--names", "a", "--depth", "3"], workers=4)
+    graph_stage(ctx, "fscore-deep", "MC_FSCore.tla", "FSCore.deep.cfg", "fscore", FS_ADAPTERS, ["--names", "a,b", "--depth", "4"] + _fa(ctx), workers=4)
+    graph_stage(ctx, "fscore-times", "MC_FSCore.tla", "FSCore.times.cfg", "fscore", FS_ADAPTERS, ["--names", "a", "--depth", "3"] + _fa(ctx), workers=4)
+    # Chtimes followed by renames of the directory / file it was applied to (two names, one time value): a move keeps the time
+    graph_stage(ctx, "fscore-times2", "MC_FSCore.tla", "FSCore.times2.cfg", "fscore", FS_ADAPTERS, ["--names", "a,b", "--depth", "3"] + _fa(ctx), workers=4)
     # names that are string prefixes of each other ("a", "ab"): only whole elements count
-    graph_stage(ctx, "fscore-prefix", "MC_FSCore.tla", "FSCore.prefix.cfg", "fscore", FS_ADAPTERS, ["--names", "a,ab", "--depth", "3"], workers=4)
+    graph_stage(ctx, "fscore-prefix", "MC_FSCore.tla", "FSCore.prefix.cfg", "fscore", FS_ADAPTERS, ["--names", "a,ab", "--depth", "3"] + _fa(ctx), workers=4)
+    # names containing pattern characters ("a[b]" next to "ab", "a*" next to "ab"): names are never patterns
+    graph_stage(ctx, "fscore-glob", "MC_FSCore.tla", "FSCore.glob.cfg", "fscore", FS_ADAPTERS, ["--names", "a[b],ab", "--depth", "3"] + _fa(ctx), workers=4)
+    graph_stage(ctx, "fscore-star", "MC_FSCore.tla", "FSCore.star.cfg", "fscore", FS_ADAPTERS, ["--names", "a*,ab", "--depth", "3"] + _fa(ctx), workers=4)
     fscore_dotname(ctx)
 
 
 def fscore_dotname(ctx):
     # a name that begins with a dot is a name like any other (listed, stat-able, removable), also directly below the root
-    graph_stage(ctx, "fscore-dotname", "MC_FSCore.tla", "FSCore.dotname.cfg", "fscore", FS_ADAPTERS, ["--names", ".a,a", "--depth", "3"], workers=4)
+    graph_stage(ctx, "fscore-dotname", "MC_FSCore.tla", "FSCore.dotname.cfg", "fscore", FS_ADAPTERS, ["--names", ".a,a", "--depth", "3"] + _fa(ctx), workers=4)
 
 
 def fscore_stages(ctx):
     fscore_small(ctx)
     if ctx.tier == "quick":
-        graph_stage(ctx, "fscore-quick", "MC_FSCore.tla", "FSCore.quick.cfg", "fscore", FS_ADAPTERS, ["--names", "a,b", "--depth", "3"] + WALKS_Q)
+        graph_stage(ctx, "fscore-quick", "MC_FSCore.tla", "FSCore.quick.cfg", "fscore", FS_ADAPTERS, ["--names", "a,b", "--depth", "3"] + WALKS_Q + _fa(ctx))
     else:
-        graph_stage(ctx, "fscore-quick", "MC_FSCore.tla", "FSCore.quick.cfg", "fscore", FS_ADAPTERS, ["--names", "a,b", "--depth", "3"] + WALKS_T)
-        graph_stage(ctx, "fscore-deep", "MC_FSCore.tla", "FSCore.thorough.cfg", "fscore", FS_ADAPTERS, ["--names", "a,b", "--depth", "4"], workers=12)
-        graph_stage(ctx, "fscore-wide", "MC_FSCore.tla", "FSCore.thorough2.cfg", "fscore", FS_ADAPTERS, ["--names", "a,b", "--depth", "3"], workers=12)
+        graph_stage(ctx, "fscore-quick", "MC_FSCore.tla", "FSCore.quick.cfg", "fscore", FS_ADAPTERS, ["--names", "a,b", "--depth", "3"] + WALKS_T + _fa(ctx))
+        graph_stage(ctx, "fscore-deep", "MC_FSCore.tla", "FSCore.thorough.cfg", "fscore", FS_ADAPTERS, ["--names", "a,b", "--depth", "4"] + _fa(ctx), workers=12)
+        graph_stage(ctx, "fscore-wide", "MC_FSCore.tla", "FSCore.thorough2.cfg", "fscore", FS_ADAPTERS, ["--names", "a,b", "--depth", "3"] + _fa(ctx), workers=12)
 
 
 def c03_stages(ctx):
@@ -60,12 +71,18 @@ def c02_stages(ctx):
 
 
 def c01_stages(ctx):
+    # C01 compares the data ReadDir returns and the tree after every step with os: a listing that disagrees with Stat, or a
+    # tree that is not well-formed, is a difference from os (whose tree always is), so both aspects are judged for C01 here
+    ctx.fscore_attr = "list:C01,wf:C01"
     fscore_stages(ctx)
     trace_stage(ctx)
 
 
 def c16_stages(ctx):
     dirh_stages(ctx)
+    # the listed directory has a name that begins with a dot (".d"): directly below the root of an archive, a mount table, a
+    # cache or a view it is a name like any other
+    graph_stage(ctx, "dirh-dot", "MC_DirH.tla", "DirH.k3.cfg", "dirh", [a + ".dot" for a in DIRH_ALL], workers=4)
     fscore_dotname(ctx)
     graph_stage(ctx, "fscore-quick", "MC_FSCore.tla", "FSCore.quick.cfg", "fscore", FS_ADAPTERS, ["--names", "a,b", "--depth", "3"])
 
